@@ -220,7 +220,7 @@ def run(tier):
     glob, methods = inventory(svh)
     ncall = len(glob) + sum(len(v) for v in methods.values())
     log("[C07] live inventory: %d globals, %d methods on %d sample values" % (len(glob), sum(len(v) for v in methods.values()), len(methods)))
-    ncases = 500 if tier == "quick" else 6000
+    ncases = 500 if tier == "quick" else common.tscale(6000)
     per = 200
     cases = []
     files_of = {}
